@@ -198,6 +198,8 @@ func main() {
 			tier = os.Args[2]
 		}
 		racepassMain(tier)
+	case "racepass-cold":
+		racepassColdChild(os.Args[2])
 	default:
 		tier := "quick"
 		if len(os.Args) > 2 {
